@@ -61,7 +61,7 @@ func (fi *FuncInfo) errorGuard(gs []Cond) (bool, string) {
 			}
 		}
 		if g.Kind == "bool" && g.Neg {
-			if v := fi.varOf(g.Expr); v != nil && v.Name() == "success" {
+			if v := fi.varOf(g.Expr); v != nil && fi.isFlag(v, true) {
 				return true, "!success"
 			}
 		}
@@ -141,7 +141,7 @@ func init() {
 				isErr, why := fi.errorGuard(gs)
 				hadDiff := false
 				for _, g := range gs {
-					if g.Kind == "bool" && !g.Neg && fi.varOf(g.Expr) != nil && fi.varOf(g.Expr).Name() == "hadDiff" {
+					if g.Kind == "bool" && !g.Neg && fi.varOf(g.Expr) != nil && fi.isFlag(fi.varOf(g.Expr), false) {
 						hadDiff = true
 					}
 				}
@@ -151,7 +151,7 @@ func init() {
 				case hadDiff:
 					okS := false
 					for _, g := range gs {
-						if sv := fi.varOf(g.Expr); sv != nil && sv.Name() == "success" && !g.Neg && g.Kind == "bool" {
+						if sv := fi.varOf(g.Expr); sv != nil && fi.isFlag(sv, true) && !g.Neg && g.Kind == "bool" {
 							okS = true
 						}
 					}
@@ -168,10 +168,10 @@ func init() {
 			okS, okD := false, false
 			for _, g := range gs {
 				if v := fi.varOf(g.Expr); v != nil && g.Kind == "bool" {
-					if v.Name() == "success" && !g.Neg {
+					if fi.isFlag(v, true) && !g.Neg {
 						okS = true
 					}
-					if v.Name() == "hadDiff" && g.Neg {
+					if fi.isFlag(v, false) && g.Neg {
 						okD = true
 					}
 				}
@@ -181,7 +181,7 @@ func init() {
 			set := false
 			fi.inspect(fi.Decl.Body, func(nd ast.Node) bool {
 				as, ok := nd.(*ast.AssignStmt)
-				if !ok || len(as.Lhs) != 1 || fi.varOf(as.Lhs[0]) == nil || fi.varOf(as.Lhs[0]).Name() != "hadDiff" || as.Tok == token.DEFINE {
+				if !ok || len(as.Lhs) != 1 || fi.varOf(as.Lhs[0]) == nil || !fi.isFlag(fi.varOf(as.Lhs[0]), false) || as.Tok == token.DEFINE {
 					return true
 				}
 				for _, g := range fi.Guards(as) {
@@ -206,7 +206,7 @@ func init() {
 				onErrs, onOp := false, false
 				fi.inspect(fi.Decl.Body, func(nd ast.Node) bool {
 					as, ok := nd.(*ast.AssignStmt)
-					if !ok || len(as.Lhs) != 1 || as.Tok == token.DEFINE || fi.varOf(as.Lhs[0]) == nil || fi.varOf(as.Lhs[0]).Name() != "success" {
+					if !ok || len(as.Lhs) != 1 || as.Tok == token.DEFINE || fi.varOf(as.Lhs[0]) == nil || !fi.isFlag(fi.varOf(as.Lhs[0]), true) {
 						return true
 					}
 					if id, ok := ast.Unparen(as.Rhs[0]).(*ast.Ident); !ok || id.Name != "false" {
@@ -245,7 +245,7 @@ func init() {
 				last := rets[len(rets)-1]
 				okS := false
 				for _, g := range fi.Guards(last) {
-					if v := fi.varOf(g.Expr); v != nil && v.Name() == "success" && !g.Neg {
+					if v := fi.varOf(g.Expr); v != nil && fi.isFlag(v, true) && !g.Neg {
 						okS = true
 					}
 				}
@@ -1158,8 +1158,16 @@ func init() {
 				if f := ga.selField(rx); f != nil && f.Name() == "outputs" {
 					isOut = true
 				}
-				if v := ga.varOf(rx); v != nil && v.Name() == "out" {
-					isOut = true
+				if v := ga.varOf(rx); v != nil {
+					// a local that becomes a group's outputs (the value of the outputs: key of an outGroup literal)
+					ga.inspect(ga.Decl.Body, func(nd ast.Node) bool {
+						if kv, ok := nd.(*ast.KeyValueExpr); ok {
+							if k, ok := kv.Key.(*ast.Ident); ok && k.Name == "outputs" && ga.varOf(kv.Value) == v {
+								isOut = true
+							}
+						}
+						return true
+					})
 				}
 				if isOut {
 					stored[types.TypeString(ga.Info.TypeOf(st.Args[1]), nil)] = true
@@ -1222,4 +1230,37 @@ func tagAppend(ld *FuncInfo, as *ast.AssignStmt) (ext, one bool) {
 		}
 	}
 	return true, one
+}
+
+// isFlag reports whether v is a boolean flag local of fi that starts as init
+// and is otherwise only ever assigned the opposite constant (success := true …
+// success = false; hadDiff := false … hadDiff = true). The variable's name
+// plays no part.
+func (fi *FuncInfo) isFlag(v *types.Var, init bool) bool {
+	if v == nil || types.TypeString(v.Type(), nil) != "bool" || fi.isParam(v) {
+		return false
+	}
+	want := map[bool]string{true: "true", false: "false"}
+	defined, flipped := false, false
+	for _, d := range fi.defs[v] {
+		id, _ := ast.Unparen(d.rhs).(*ast.Ident)
+		if id == nil {
+			return false
+		}
+		switch d.kind {
+		case "define":
+			if id.Name != want[init] || defined {
+				return false
+			}
+			defined = true
+		case "assign":
+			if id.Name != want[!init] {
+				return false
+			}
+			flipped = true
+		default:
+			return false
+		}
+	}
+	return defined && flipped
 }
